@@ -14,8 +14,8 @@ def gen(rng: random.Random, tier: str):
         c = {"kind": kind, "rows": rows, "seed": rng.randrange(10**6), "test_only": rng.random() < 0.3}
         if kind == "array_split": c.update(xs=rng.sample(range(50), rng.randint(0, 12)), k=rng.randint(1, 6))
         elif kind == "last_n": c.update(times=rng.sample(range(100), rng.randint(1, 8)), n=rng.randint(0, 9))
-        elif kind == "crossfold_records": c.update(k=rng.randint(2, 5))
-        elif kind == "sample_records": c.update(size=rng.randint(1, max(1, len(rows) // 2)), repeats=rng.choice([None, 2, 3, 6]), disjoint=rng.random() < 0.6)
+        elif kind == "crossfold_records": c.update(k=rng.randint(1, 5))          # one partition: every record is tested, nothing is left to train on
+        elif kind == "sample_records": c.update(size=(len(rows) if rng.random() < 0.15 else rng.randint(1, max(1, len(rows) // 2))), repeats=rng.choice([None, 2, 3, 6]), disjoint=rng.random() < 0.6)          # a sample of every record is a sample
         elif kind == "crossfold_users": c.update(k=rng.randint(2, 4), holdout=rng.choice([["sample_n", 1], ["sample_n", 2], ["sample_frac", 0.5], ["last_n", 1], ["last_n", 0], ["last_frac", 0.4], ["last_frac", 0.01]]))
         elif kind == "sample_users": c.update(size=rng.randint(1, nu), repeats=rng.choice([None, 2, 4]), disjoint=rng.random() < 0.6, holdout=rng.choice([["sample_n", 1], ["last_n", 2], ["last_frac", 0.5]]))
         elif kind == "temporal_tz":
